@@ -585,6 +585,25 @@ func (r *Run) IsolationOracle() []string {
 // that visible) the committed database at the beginning of that iteration is
 // what counts; a step that finds a referenced integration without any position
 // ends with nothing-new and writes nothing.
+// depsOf: the integrations task t must wait for: what its declaration
+// references (independent of the implementation) plus whatever the
+// implementation put into Dependencies.
+func depsOf(t *TaskH) []string {
+	out := append([]string{}, t.Spec.DeclaredRefs()...)
+	for _, d := range t.Info.Deps {
+		dup := false
+		for _, o := range out {
+			if o == d {
+				dup = true
+			}
+		}
+		if !dup {
+			out = append(out, d)
+		}
+	}
+	return out
+}
+
 func (r *Run) DepOracle() []string {
 	w := r.W
 	var bad []string
@@ -611,7 +630,7 @@ func (r *Run) DepOracle() []string {
 			delete(iterStart, e.Tid)
 		case "op":
 			t := byID[e.Tid]
-			if len(t.Info.Deps) == 0 {
+			if len(depsOf(t)) == 0 {
 				continue
 			}
 			switch e.Op.Name {
@@ -625,7 +644,7 @@ func (r *Run) DepOracle() []string {
 				stale[e.Tid] = false
 				src := w.Names.SrcID(t.Info.SrcName)
 				missing[e.Tid] = false
-				for _, d := range t.Info.Deps {
+				for _, d := range depsOf(t) {
 					if _, ok := newestCur(cur, pairKey{src, w.Names.IGID(d)}); !ok {
 						missing[e.Tid] = true
 					}
@@ -656,7 +675,7 @@ func (r *Run) DepOracle() []string {
 						when = fmt.Sprintf("when this iteration of the step's loop began (the dependency position %d had been read before the step unwound)", readNum[e.Tid])
 					}
 					src := w.Names.SrcID(t.Info.SrcName)
-					for _, dep := range t.Info.Deps {
+					for _, dep := range depsOf(t) {
 						c, ok := newestCur(d, pairKey{src, w.Names.IGID(dep)})
 						if !ok {
 							bad = append(bad, fmt.Sprintf("event %d: task %d recorded position %d although referenced integration %q had not started", i, e.Tid, e.Op.Cur.Num, dep))
@@ -864,6 +883,7 @@ func (r *Run) DepWindows() []string {
 	type win struct {
 		open bool
 		at   map[string]uint64 // dep name -> position at the dependency read
+		snap *DbView           // committed database at the dependency read
 		hit  string
 	}
 	wins := map[int]*win{}
@@ -890,19 +910,50 @@ func (r *Run) DepWindows() []string {
 			wins = map[int]*win{}
 		case "op":
 			t := w.Task(e.Tid)
-			if t == nil || len(t.Info.Deps) == 0 || e.Op.Fail != "" {
+			if t == nil || len(depsOf(t)) == 0 || e.Op.Fail != "" {
 				continue
 			}
 			switch e.Op.Name {
 			case "QLatestDep":
-				wn := &win{open: true, at: map[string]uint64{}}
+				wn := &win{open: true, at: map[string]uint64{}, snap: cur}
 				src := w.Names.SrcID(t.Info.SrcName)
-				for _, dep := range t.Info.Deps {
+				for _, dep := range depsOf(t) {
 					if c, ok := newestCur(cur, pairKey{src, w.Names.IGID(dep)}); ok {
 						wn.at[dep] = c.Num
 					}
 				}
 				wins[e.Tid] = wn
+			case "RGet":
+				// a reference whose recorded position is a block of ANOTHER chain version than the
+				// one this step is served (the reference has not unwound yet): its table still
+				// describes the orphaned blocks
+				wn := wins[e.Tid]
+				if wn == nil || wn.hit != "" || wn.snap == nil {
+					continue
+				}
+				ver := 0
+				for _, sg := range e.Op.Segs {
+					for _, b := range sg.Blocks {
+						if b.Ver > ver {
+							ver = b.Ver
+						}
+					}
+				}
+				node := w.Nodes[t.Info.SrcName]
+				if ver < 1 || ver > len(node.Hist.Versions) {
+					continue
+				}
+				ch := node.Hist.Versions[ver-1]
+				src := w.Names.SrcID(t.Info.SrcName)
+				for _, dep := range depsOf(t) {
+					c, ok := newestCur(wn.snap, pairKey{src, w.Names.IGID(dep)})
+					if !ok || c.Hash == 0 {
+						continue
+					}
+					if b := ch.At(c.Num); b == nil || w.Names.HashID(b.Hash) != c.Hash {
+						wn.hit = fmt.Sprintf("event %d: the position (%d, hash %d) of %q is not a block of version %d served to the step", i, c.Num, c.Hash, dep, ver)
+					}
+				}
 			case "CopyRows":
 				if wn := wins[e.Tid]; wn != nil && wn.hit != "" {
 					out = append(out, fmt.Sprintf("task %d copied at event %d after %s", e.Tid, i, wn.hit))
